@@ -205,6 +205,14 @@ class C14:
                                           'hi': 1.0}),
                     ('bounded_gaussian', {'mu': 0.5, 'sd': -1.0, 'lo': 0.0,
                                           'hi': 1.0}),
+                    # not-a-number bounds and widths make no sense either
+                    ('uniform', {'lo': 'nan', 'hi': 1.0}),
+                    ('uniform', {'lo': 0.0, 'hi': 'nan'}),
+                    ('gaussian', {'mu': 0.0, 'sd': 'nan'}),
+                    ('bounded_gaussian', {'mu': 0.5, 'sd': 1.0, 'lo': 'nan',
+                                          'hi': 1.0}),
+                    ('bounded_gaussian', {'mu': 0.5, 'sd': 1.0, 'lo': 0.0,
+                                          'hi': 'nan'}),
                 ])
                 b.emit(bad[0], bad[1], tags={'k': 'reject', 'reject': True})
         # fill script values and evaluation points now that pool specs exist
